@@ -828,6 +828,25 @@ pub fn has_skip_include(doc: &Doc) -> bool {
     })
 }
 
+/// Some selection carries both `@skip` and `@include`.
+pub fn has_skip_and_include_together(doc: &Doc) -> bool {
+    fn d(dirs: &[DirApp]) -> bool {
+        dirs.iter().any(|d| d.name == "skip") && dirs.iter().any(|d| d.name == "include")
+    }
+    fn go(sels: &[Sel]) -> bool {
+        sels.iter().any(|s| match s {
+            Sel::Field { dirs, sels, .. } => d(dirs) || go(sels),
+            Sel::Spread { dirs, .. } => d(dirs),
+            Sel::Inline { dirs, sels, .. } => d(dirs) || go(sels),
+        })
+    }
+    doc.defs.iter().any(|x| match x {
+        Def::Op(o) => go(&o.sels),
+        Def::Frag(f) => go(&f.sels),
+        _ => false,
+    })
+}
+
 pub fn val_to_json(v: &Val) -> J {
     match v {
         Val::Null => J::Null,
